@@ -10,6 +10,7 @@ import (
 	"k8s.io/apimachinery/pkg/types"
 
 	authzpb "istio.io/api/security/v1beta1"
+	"istio.io/istio/pilot/pkg/security/trustdomain"
 	vp "istio.io/istio/pkg/zzvp"
 )
 
@@ -543,4 +544,62 @@ func VerifC08Twin() {
 	pol, _ := m.Generate(false, true, rbacpb.RBAC_ALLOW)
 	r := verifReq()
 	vp.Assert(verifPolicyMatches(pol, r), "twin")
+}
+
+// Trust domains: MigrateTrustDomain makes "cluster.local" (a pointer to the mesh's own trust domain) and every trust
+// domain of the bundle (the mesh trust domain and its aliases) interchangeable in source principals; a foreign trust
+// domain stays as written.
+func VerifC08TrustDomain() {
+	meshTD := []string{"cluster.local", "td"}[vp.Choice("meshTrustDomain", 2)]
+	var aliases []string
+	if vp.Choice("alias", 2) == 1 {
+		aliases = []string{"td2"}
+	}
+	bundle := trustdomain.NewBundle(meshTD, aliases)
+	written := []string{"cluster.local", "td", "td2", "xx"}[vp.Choice("policyTrustDomain", 4)]
+	value := written + "/ns/a/sa/b"
+	src := &authzpb.Source{Principals: []string{value}}
+	negated := vp.Choice("negated", 2) == 1
+	if negated {
+		src = &authzpb.Source{NotPrincipals: []string{value}}
+	}
+	rule := &authzpb.Rule{From: []*authzpb.Rule_From{{Source: src}}}
+	action := []rbacpb.RBAC_Action{rbacpb.RBAC_ALLOW, rbacpb.RBAC_DENY}[vp.Choice("action", 2)]
+	m, err := New(types.NamespacedName{Namespace: verifPolicyNamespace, Name: "pol"}, rule)
+	if err != nil {
+		vp.Unreachable("rule-of-the-grammar-is-accepted")
+	}
+	m.MigrateTrustDomain(bundle)
+	pol, err := m.Generate(false, true, action)
+	if err != nil {
+		vp.Unreachable("http-generation-never-fails-for-the-grammar")
+	}
+	vp.Reach("generated")
+	// the peer: any short trust domain, or cluster.local
+	peerTD := vp.StringIn("req.td", 3, "tdx2")
+	if vp.Choice("req.clusterLocal", 2) == 1 {
+		peerTD = "cluster.local"
+	}
+	ns, sa := vp.StringIn("req.ns", 1, "ab"), vp.StringIn("req.sa", 1, "ab")
+	vp.Assume(vp.And3(peerTD != "", ns != "", sa != ""))
+	r := &verifRequest{method: "GET", path: "/", host: "h", principal: "spiffe://" + peerTD + "/ns/" + ns + "/sa/" + sa}
+	local := func(td string) bool {
+		ok := td == meshTD
+		for _, a := range aliases {
+			ok = vp.Or(ok, td == a)
+		}
+		return ok
+	}
+	var tdMatches bool
+	if written == "cluster.local" || written == meshTD || len(aliases) > 0 && written == aliases[0] {
+		tdMatches = local(peerTD) // any of the mesh's own trust domains
+	} else {
+		tdMatches = peerTD == written
+	}
+	named := vp.And3(tdMatches, ns == "a", sa == "b")
+	want := named
+	if negated {
+		want = vp.Not(named)
+	}
+	vp.Assert(verifPolicyMatches(pol, r) == want, "trust-domain-pointer-and-aliases-are-interchangeable")
 }
